@@ -115,6 +115,24 @@ def run(ctx, rep):
         ok = success_dominates(ib, w[0], pub[0].bb)
         rep.ob('R12.b', IW, 'index size after write', ok, pub[0].where(), None if ok else 'index size is published before the entry was written')
 
+    rep.rule('R12.d', 'no acknowledged message is invisible: the batch that persist_messages took out of the unsaved buffer is covered by the published log size when save_batches returns, in every confirmation mode', floor=2, analysis='A5+A2')
+    CONF = 'iggy::confirmation::Confirmation'
+    sw = enum_switches(sb, {CONF})
+    if not sw:
+        rep.anchor_lost('R12.d', 'match on Confirmation in save_batches')
+    else:
+        bb_, t_, ty_ = sw[0]
+        for v, blocks in arm_regions(sb, bb_).items():
+            vn = variant_name(ctx, ty_, v) if v != 'else' else None
+            if vn is None:
+                continue
+            pubs = [c for c in sb.calls if c.bb in blocks and c.name.endswith('Atomic::fetch_add') and render(sb.expr_operand(c.args[0])).endswith('.log_size_bytes')]
+            queued = [c for c in sb.calls if c.bb in blocks and c.name.startswith(PT + '::persist')]
+            ok = bool(pubs) and not queued
+            rep.ob('R12.d', LW + '::save_batches', 'batch readable when the save returns: ' + vn, ok, (pubs or queued or [None])[0].where() if (pubs or queued) else sb.where(bb_),
+                   'size published in this arm after the write' if ok else
+                   'in the %s arm the batch is only queued for the background persister: it has left the unsaved buffer but the published log size does not cover it yet, so a poll can return a run with a hole (or nothing) for acknowledged offsets until the persister catches up' % vn)
+
     rep.rule('R12.c', 'messages leave the unsaved buffer only when handed to the writer; segment/cache selection comparisons keep their forms; the cache is a queue', floor=16, analysis='A2+A6+A10')
     pb = ctx.fn_body(S + '::persist_messages')
     tk = [c for c in pb.calls if c.name.split('::')[-1] == 'take' and is_user_call(c) and render(pb.expr_operand(c.args[0])).endswith('.unsaved_messages')]
